@@ -23,6 +23,18 @@ def this_field_stores(p):
     return out
 
 
+def is_transfer_member(f, cls):
+    """the move constructor of cls, or a (private) helper that takes over another object of the same class: a non-static member
+    other than operator= with exactly one parameter that is a reference to cls - whatever it is called"""
+    if not f["n"].startswith(cls + "::") or f.get("static") or len(f["params"]) != 1 or f["sn"].startswith("operator"):
+        return False
+    t = f["params"][0]["t"] or {}
+    if not t.get("ref"):
+        return False
+    c = (t.get("c") or "").replace("const ", "")
+    return c.split("<")[0].strip(" &") == cls and "const" not in (t.get("c") or "")
+
+
 def check_move_obj(rep, prop, db, f, inst, other_name=None):
     """move_obj / move ctor: every field transferred from other and every field of other reset"""
     rule = "R-%s-move" % prop
